@@ -74,10 +74,14 @@ struct TmpDir
 	std::string path;
 	TmpDir()
 	{
+		// below the check's own scratch directory when it says so (removed by the check even if this process dies)
+		const char* base = getenv("VERIF_TMP");
+		std::string t = std::string(base && *base ? base : "/verif/build/tmp") + "/c16-XXXXXX";
 		mkdir("/verif/build/tmp", 0755);
-		char t[] = "/verif/build/tmp/c16-XXXXXX";
-		if (!mkdtemp(t)) { perror("mkdtemp"); exit(2); }
-		path = t;
+		std::vector<char> b(t.begin(), t.end());
+		b.push_back(0);
+		if (!mkdtemp(&b[0])) { perror("mkdtemp"); exit(2); }
+		path = &b[0];
 	}
 	~TmpDir()
 	{
